@@ -31,7 +31,7 @@ MAX_DIGESTS = 300_000
 class Part:
     def __init__(self, name, eval_case=None, strategy=None, quick=0, thorough=0, shards=16, quick_shards=1,
                  kind="given", enum=None, custom=None, machine=None, shrink=True, timeout=None,
-                 steps_quick=30, steps_thorough=60, rule="", exhaustive=False):
+                 steps_quick=30, steps_thorough=60, rule="", exhaustive=False, only_tier=None):
         self.name = name
         self.eval_case = eval_case
         self.strategy = strategy
@@ -49,6 +49,7 @@ class Part:
         self.steps_thorough = steps_thorough
         self.rule = rule
         self.exhaustive = exhaustive
+        self.only_tier = only_tier
 
 
 # ==================================================================================================
@@ -388,7 +389,9 @@ def run_check(prop, tier, seed, only=None, budget=None, jobs_max=None):
             continue
         nsh = part.quick_shards if tier == "quick" else part.shards
         n = part.quick if tier == "quick" else part.thorough
-        if n <= 0 and part.kind in ("given", "machine", "custom") and part.custom is not None or (n <= 0 and part.kind in ("given", "machine")):
+        if n <= 0 and part.kind in ("given", "machine"):
+            continue
+        if part.only_tier and part.only_tier != tier:
             continue
         for sh in range(nsh):
             jobs.append({"prop": prop, "part": part.name, "tier": tier, "shard": sh, "nshards": nsh, "n": n,
